@@ -12,9 +12,10 @@ Graph case (plain data):
      "labels": [[name, [bool, ...]], ...]   (ordered, names unique, every point in >= 1 mask),
      "ops": [op, ...]}
 op:
-    {"op": "with" | "without", "labels": [name, ...], "as_str": bool}
+    {"op": "with" | "without", "labels": [name, ...], "as_str": bool, "as_tuple": bool}
     {"op": "get" | "remove", "label": name}
     {"op": "add", "label": name, "indices": [int, ...], "as_array": bool}
+    {"op": "mask", "mask": [bool, ...]}        (inherited from_mask: plain induced sub-graph)
 """
 import json
 import os
@@ -101,6 +102,8 @@ def apply_op(g, op):
     try:
         if kind in ("with", "without"):
             arg = op["labels"][0] if op.get("as_str") else list(op["labels"])
+            if op.get("as_tuple") and not op.get("as_str"):
+                arg = tuple(arg)
             r = g.with_labels(arg) if kind == "with" else g.without_labels(arg)
         elif kind == "get":
             r = g.get_label(op["label"])
@@ -111,11 +114,34 @@ def apply_op(g, op):
             if op.get("as_array"):
                 idx = np.array(idx, dtype=int)
             r = g.add_label(op["label"], idx)
+        elif kind == "mask":
+            r = g.from_mask(np.array(op["mask"], dtype=bool))
         else:
             raise KeyError(kind)
     except ValueError:
         return None, {"err": "ValueError"}
     return r, {"ok": dump_group(r)}
+
+
+def public_labels(g):
+    """What a caller can read about the labels of a group without touching private state: the ``labels`` list,
+    ``n_labels`` and the (label, member indices) pairs of ``tojson()`` in their order."""
+    j = g.tojson()["labels"]
+    return {
+        "labels": [str(k) for k in g.labels],
+        "n_labels": int(g.n_labels),
+        "json": [[str(e["label"]), [int(i) for i in e["mask"]]] for e in j],
+    }
+
+
+def case_from_dump(case, dump):
+    """The plain-data graph case that a (verified) labelled result dump stands for: the next receiver of a chain."""
+    return {
+        "d": case["d"],
+        "pts": [list(row) for row in dump["points"]],
+        "edges": [[int(i), int(j), w] for i, j, w in dump["edges"]],
+        "labels": [[nm, [bool(b) for b in m]] for nm, m in zip(dump["labels"], dump["masks"])],
+    }
 
 
 def run_case_menpo(case):
@@ -191,9 +217,11 @@ def ref_op(case, op):
             kept = _dedupe(req)
             pos = [names.index(l) for l in req]
             order = all(pos[i] <= pos[i + 1] for i in range(len(pos) - 1))
+            alt = [l for l in names if l in kept]  # the kept labels in their original order
         else:
             kept = [l for l in names if l not in req]
             order = True
+            alt = kept
         if not kept:
             return None  # nothing requested: the property does not say what an empty selection is
         keep = [any(masks[l][p] for l in kept) for p in range(n)]
@@ -204,7 +232,19 @@ def ref_op(case, op):
             expect, why = "either", "empty_result"  # a graph with no vertex cannot exist
         elif kind == "without" and unknown:
             expect, why = "either", "unknown_label_in_exclusion"
-        return {"expect": expect, "why": why, "model": model, "order": order, "labelled": True}
+        return {"expect": expect, "why": why, "model": model, "order": order, "labelled": True, "alt_order": alt}
+    if kind == "mask":
+        keep = [bool(b) for b in op["mask"]]
+        if len(keep) != n:
+            return None
+        model = ref_restrict(case, keep, [])
+        return {
+            "expect": "result" if any(keep) else "either",
+            "why": "" if any(keep) else "empty_result",
+            "model": model,
+            "order": True,
+            "labelled": False,
+        }
     if kind == "get":
         l = op["label"]
         if l not in masks:
